@@ -305,7 +305,7 @@ Section Run.
         Ok (VTuple r)
     | UDictComp _ _ => Exn XAttributeError
     | UData c => match sfind E c with
-                 | Some k => match k.(sc_fields) with [] => Ok (VObj c []) | _ => Exn XValueError end
+                 | Some _ => Exn XValueError       (* a str is not a mapping *)
                  | None => Exn XAttributeError end
     end.
 
@@ -390,7 +390,7 @@ Section Run.
                               tl <- go rest ;; Ok ((f.(sf_name), y) :: tl)
                           end) k.(sc_fields) ;;
                   Ok (VObj c r)
-              | _ => match k.(sc_fields) with [] => Ok (VObj c []) | _ => Exn XValueError end
+              | _ => Exn XValueError               (* non-mapping argument *)
               end
           end
       end.
@@ -439,7 +439,7 @@ Section Run.
     | SDict _ _ => Exn XAttributeError
     | SOpt t' => ref_dec_str t' s
     | SData c => match sfind E c with
-                 | Some k => match k.(sc_fields) with [] => Ok (VObj c []) | _ => Exn XValueError end
+                 | Some _ => Exn XValueError
                  | None => Exn XAttributeError end
     end.
 
@@ -526,7 +526,7 @@ Section Run.
                           end) k.(sc_fields) ;;
                   Ok (VObj c r)
               | VStr s => ref_dec_str t s
-              | _ => match k.(sc_fields) with [] => Ok (VObj c []) | _ => Exn XValueError end
+              | _ => Exn XValueError
               end
           end
       end.
